@@ -8,7 +8,10 @@ is written only by `adopt` under `is_majority(votes)` with votes = number of hea
 equal to the candidate; majority = len/2 + 1; the accepted/current revision is never
 redacted or edited; `Identity::op` is transactional (TX, and no ignored step error can
 follow a write of that step) so a failed accept leaves no
-vote behind.  Not decided: "majority of the replaced document" over arbitrary
+vote behind; an entry reaches `apply` only behind `valid_signatures()` (the author the
+commit names is trusted by `action`); a revision is recorded only if the document embedded
+in its commit — what `Repository::identity_doc()` reads back — is the blob the action
+names and the delegates sign (sibling rule with `from_root`).  Not decided: "majority of the replaced document" over arbitrary
 concurrent histories."""
 import re
 
